@@ -1362,6 +1362,12 @@ func equal(a, b Object) (bool, error) {
 			return string(obj), nil
 		case Boolean:
 			return bool(obj), nil
+		case Array:
+			return sliceID(obj), nil
+		case Procedure:
+			return sliceID(obj), nil
+		case mark:
+			return obj, nil
 		default:
 			return nil, &postScriptError{eTypecheck, fmt.Sprintf("equality not implemented for %T", obj)}
 		}
@@ -1381,6 +1387,16 @@ func equal(a, b Object) (bool, error) {
 type procID struct {
 	first *Object
 	n     int
+}
+
+// sliceID identifies an array or procedure by the elements it shares:
+// two values are the same composite object if they start at the same
+// element and have the same length.
+func sliceID(s []Object) procID {
+	if len(s) == 0 {
+		return procID{}
+	}
+	return procID{&s[0], len(s)}
 }
 
 // bindProc replaces operator names in proc (and, recursively, in the
